@@ -4,6 +4,7 @@ package harness
 
 import (
 	"fmt"
+	"github.com/platinummonkey/go-concurrency-limits/core"
 	"testing"
 	"testing/synctest"
 	"time"
@@ -180,7 +181,7 @@ func runC02InBubble(c c02Case) (out kit.Outcome) {
 				return kit.Viol(kind+":end-backlog", "after every caller returned: backlog holds %d elements", n)
 			}
 		}
-		if v, ok := st.reg.gauge("queue_size", ""); ok && v != 0 {
+		if v, ok := st.reg.gauge(core.MetricQueueSize, ""); ok && v != 0 {
 			return kit.Viol(kind+":end-backlog", "after every caller returned: queue_size gauge reports %v", v)
 		}
 		if st.partitioned() {
